@@ -134,6 +134,13 @@ CHECKS = {
         "The smallest alphabet of all properties (each run costs 0.1-4 s); scipy's minimisers are opaque; set iteration order fixed to insertion order.",
         "DESIGN.md 5 C13",
     ),
+    "C06": (
+        "model_checking",
+        "bounded exhaustive enumeration of programs over the public API (4 base models x every set of <=2, thinned 3, decoration statements from a 60-statement alphabet, both orders where statements touch the same target, then write with a debug VTK), executed on the real library and on a plain-Python declaration model; the written text is read back with an independent blockMeshDict reader",
+        "The file must parse; vertices dense and numbered in list order; one hex per non-deleted operation with its 8 corners in the operation's own order, its cell zone and counts; boundary = exactly the declared patch names with type, settings and side quads; defaultPatch, mergePatchPairs, settings, faces, projected edges and geometry exactly as declared; every index valid; every patch / projected quad a side of a block, every edge entry a block edge; built-in geometry (sphere) defined; VTK points and cells equal the dictionary's.",
+        "Trusted: mc/foamdict.py, side/edge tables of mc/blockmesh_ref.py, the declaration model in mc/props/c06.py. String payloads opaque.",
+        "DESIGN.md 5 C06",
+    ),
     "C02": (
         "model_checking",
         "stateless model checking of the implementation: choice-point explorer over set iteration orders (iterative deviation bounding) x exhaustive insertion orders / corner numberings / chop placements of small lattice assemblies, edge-family reference model",
